@@ -91,7 +91,7 @@ Proof.
            ++ elim Hne. now apply Hr.
            ++ apply in_opt_list in Hj. congruence.
         -- destruct (H2 d0 Ew) as [Hl Hr]. apply in_app_or in Hj. destruct Hj as [Hj|Hj].
-           ++ apply Hr in Hj. destruct Hj as [[Hj _]|Hj]; [congruence|]. left. split; [exact Hj|]. now rewrite andb_true_l.
+           ++ apply Hr in Hj. destruct Hj as [[Hj _]|Hj]; [congruence|]. left. split; [exact Hj|reflexivity].
            ++ apply in_opt_list in Hj. right. congruence.
     + intros d Hd w Hw Hne. rewrite Hto in Hd. apply in_or_app.
       destruct (touches done d) eqn:Et; [left; eapply H4; eauto|].
@@ -204,7 +204,7 @@ Lemma build_nth : forall p' pre cs, p = pre ++ p' -> CI (length pre) cs ->
 Proof.
   induction p' as [|t p' IH]; intros pre cs Hp Hci i Hi; [cbn in Hi; lia|].
   assert (Ht : task_at p (length pre) = t).
-  { subst p. unfold task_at. rewrite app_nth2 by lia. now rewrite Nat.sub_diag. }
+  { rewrite Hp. unfold task_at. rewrite app_nth2 by lia. now rewrite Nat.sub_diag. }
   cbn [build]. destruct i as [|i].
   - exists cs. rewrite Nat.add_0_r. split; [exact Hci|]. cbn [nth]. now rewrite Ht.
   - cbn [nth]. cbn [length] in Hi.
